@@ -117,7 +117,11 @@ def cases(tier, rng):
         elif r < 0.4:
             out.append(W("bar", rand_bar(rng, vals), bpm, rep))
         elif r < 0.6:
-            out.append(W("track", rand_track(rng, vals), bpm, rep))
+            tr_ = rand_track(rng, vals)
+            out.append(W("track", tr_, bpm, rep))
+            if tr_[2] and any(b[3] for b in tr_[2]) and len(out) % 3 == 0:
+                # the same music through MidiFile(tracks=[filled track]): the bytes write_Track gives (judged as that)
+                out.append(W("track_ctor", tr_, bpm, rep, tag="write:tracks-handed-to-constructor", model=False))
         else:
             out.append(W("composition", [rand_track(rng, vals) for _ in range(rng.randint(0, 4))], bpm, rep))
     # malformed / out-of-range stream: error class compared with the model, nothing demanded
@@ -227,6 +231,8 @@ def oracle(c, obs):
     if not c.get("domain", True):
         return None
     kind, payload, bpm, rep = c["args"]
+    if kind == "track_ctor":
+        kind = "track"
     if isinstance(obs, Err):
         return "writing in-range music raised %s" % obs.name
     return check_file(kind, payload, bpm, rep, obs)
